@@ -51,6 +51,7 @@ func prodCampaign(rc *RunCtx, chains, steps int) {
 		g.BigAmts = double
 		p := &ProdGen{E: e, G: g}
 		p.Run(steps, 40)
+		c04Conservation(e)
 	}
 }
 
